@@ -48,6 +48,18 @@ class UQSim(DS.DimwiseSim):
     def too_big(self):
         return max(len(o) for o in self.containers()) > self.cfg.get("max_intervals", 30) or len(self.f.seen) > 2500
 
+    def _resolution(self, e):
+        DS.DimwiseSim._resolution(e)
+        if "calculated negative weight" in str(e):
+            # the weight of an end point is (first moment - mass * x1) / (x2 - x1): for an interval narrower than about 1e-9 of its
+            # position the rounding of the two moments is amplified beyond the 1e-5 the library tolerates. A history that zoomed
+            # in that far (observed: level 45, width 1e-13) is a degenerate input like the split at floating-point resolution;
+            # the same assertion on intervals of ordinary width stays a violation
+            rel = min((float(o.end) - float(o.start)) / max(abs(float(o.start)), abs(float(o.end)), 1e-300)
+                      for objs in self.containers() for o in objs if math.isfinite(o.start) and math.isfinite(o.end))
+            if rel < 1e-9:
+                raise Excluded("interval at the rounding resolution of the weighted-moment formula")
+
     def structure_key(self):
         return [[(repr(float(o.start)), repr(float(o.end)), int(o.levels[0]), int(o.levels[1])) for o in objs] for objs in self.containers()]
 
